@@ -51,3 +51,27 @@ func GoID() int64 {
 	}
 	return id
 }
+
+// The rest of the math/rand surface is passed through unchanged so that a changed file
+// which starts using more of the package still builds under the shim. Values drawn from a
+// private generator (rand.New) are not explorer decisions: they are whatever the real
+// generator yields.
+type (
+	Rand   = rand.Rand
+	Source = rand.Source
+)
+
+func New(src Source) *Rand            { return rand.New(src) }
+func NewSource(seed int64) Source     { return rand.NewSource(seed) }
+func Seed(seed int64)                 { rand.Seed(seed) }
+func Int() int                        { return rand.Int() }
+func Intn(n int) int                  { return rand.Intn(n) }
+func Int31() int32                    { return rand.Int31() }
+func Int31n(n int32) int32            { return rand.Int31n(n) }
+func Int63n(n int64) int64            { return rand.Int63n(n) }
+func Uint32() uint32                  { return rand.Uint32() }
+func Uint64() uint64                  { return rand.Uint64() }
+func Float64() float64                { return rand.Float64() }
+func Float32() float32                { return rand.Float32() }
+func Perm(n int) []int                { return rand.Perm(n) }
+func Shuffle(n int, f func(i, j int)) { rand.Shuffle(n, f) }
